@@ -197,6 +197,28 @@ def run(ck, replay=None):
                         e["raised"] = 1
                         e["error"] = repr(ex)[:160]
                     events.append(e)
+    # (b1) systems of unusual magnitude: micrometre / ten-micrometre voxels in 3-D (lumped face masses of 1e-15 ... 1e-18) with face
+    # weights down to 1e-2, and kilometre voxels; direct back-end, every formulation solves the same system (judged relative to
+    # the solution of the full system)
+    for s_, hh in (((4, 5, 3), [1e-5] * 3), ((3, 3, 2), [1e-6, 2e-6, 1e-6]), ((4, 3), [1e3, 2e3])):
+        grid = darsia.Grid(tuple(s_), hh)
+        nf, nc = int(grid.num_faces), int(grid.num_cells)
+        fw = np.array([10 ** rng.uniform(-2, 1) for _ in range(nf)])
+        rhs_m = random_rhs(rng, nf, nc, True)
+        rhs_m[nf:nf + nc] *= float(np.prod(hh))          # sources of the size of a cell's mass
+        refm = None
+        for form, backend in (("full", "direct"), ("flux_reduced", "direct"), ("pressure", "direct")):
+            e = {"tid": f"agree:magnitude:{'x'.join(map(str, s_))}:{form}:{backend}", "op": "agree", "form": form, "backend": backend, "shape": list(s_), "raised": 0, "errexp": 3, "resexp": 3}
+            try:
+                sol, M = solve_with(darsia, rng, grid, form, backend, fw, rhs_m)
+                if refm is None:
+                    refm = np.asarray(sol, dtype=float)        # the full formulation (direct) is the reference at this scale
+                e["errexp"] = exponent(relerr(sol, refm, (nf, nc)))
+                e["resexp"] = -17
+            except Exception as ex:  # noqa
+                e["raised"] = 1
+                e["error"] = repr(ex)[:160]
+            events.append(e)
     # (b2) the caller's options on systems large enough for a real multigrid hierarchy (pyamg coarsens above 100 unknowns):
     # ONE options dict (tight tolerances) serves two set-ups of one solver object and a second object; every solve has to
     # reach the requested accuracy and the dict stays the caller's
